@@ -35,7 +35,7 @@ var All = map[string]func(*Ctx){
 	"C13": seq(C13, func(c *Ctx) { c.localizeFallback("C13.status-text") }),
 	"C14": C14,
 	"C15": C15,
-	"C16": C16,
+	"C16": seq(C16, func(c *Ctx) { c.verdictNotAnError("C16.verdict") }),
 	"C17": C17,
 	"C18": C18,
 	"C19": C19,
